@@ -21,6 +21,7 @@ import (
 	"regexp"
 	"sort"
 	"strings"
+	"time"
 
 	"github.com/grafana/cog/internal/ast"
 	"github.com/grafana/cog/verifx/bldrun"
@@ -104,7 +105,10 @@ func init() {
 
 func pkgSource(id string, exprs map[int]string) string {
 	var b strings.Builder
-	fmt.Fprintf(&b, "package conv\n\nimport (\n\tcog %q\n\tp %q\n)\n\nvar _ cog.Builder[p.Root]\n\n", "verifgen/"+id+"/cog", "verifgen/"+id+"/p")
+	// the expression is written over the packages p and cog of the unit; the
+	// standard package time is imported as well (values of date-time members
+	// are printed as time.Date(...) calls)
+	fmt.Fprintf(&b, "package conv\n\nimport (\n\t\"time\"\n\tcog %q\n\tp %q\n)\n\nvar _ cog.Builder[p.Root]\nvar _ time.Time\n\n", "verifgen/"+id+"/cog", "verifgen/"+id+"/p")
 	b.WriteString("var Exprs = map[string]func() (any, error){\n")
 	var ks []int
 	for k := range exprs {
@@ -206,6 +210,12 @@ func main() {
 		opts.Thorough = true
 		fmt.Println("replaying", witness)
 	}
+	t0 := time.Now()
+	lap := func(what string) {
+		if os.Getenv("C14_NOTES") != "" {
+			fmt.Fprintf(os.Stderr, "LAP %s %.1fs\n", what, time.Since(t0).Seconds())
+		}
+	}
 	ws := genrun.NewWorkspace("c14")
 	defer ws.Close()
 	prep, err := bldrun.Prepare(ws, opts)
@@ -217,6 +227,7 @@ func main() {
 		ws.Close()
 		vx.Fatalf("replay: case %q is not in the space", opts.Only)
 	}
+	lap("prepare")
 	eng := bldrun.NewEngine(prep, nil)
 	samples := &vx.Samples{N: 10}
 	notes := map[string]string{}
@@ -267,6 +278,23 @@ func main() {
 		case len(c.CompileErrs) > 0:
 			eng.Bump("blocked_by=C02")
 			note("blocked_by=C02: "+normDiag(c.CompileErrs[0]), c.Witness()+": "+c.CompileErrs[0])
+			// A converter that does not compile returns no text at all: compile
+			// errors located in the generated converter files - when nothing
+			// else of the unit fails to compile - are C14's own business
+			// (everything else stays a precondition owned by C02).
+			onlyConverter := true
+			for _, e := range c.CompileErrs {
+				if !strings.Contains(e, "_converter_gen.go") && !strings.Contains(e, "too many errors") {
+					onlyConverter = false
+				}
+			}
+			for _, e := range c.CompileErrs {
+				if onlyConverter && strings.Contains(e, "_converter_gen.go") {
+					fail(&conv{c: c, doc: "-"}, "generated converter does not compile", e, "", "the generated converter function does not compile: "+e)
+					outcomes["converter-does-not-compile"] = true
+					break
+				}
+			}
 			continue
 		case !c.InDriver || c.Go == nil || c.Go.Err != "":
 			eng.Bump("no package / builder IR")
@@ -279,7 +307,7 @@ func main() {
 		u := eng.Unit(c, "go")
 		rootB, ok := c.Go.Builder("Root")
 		if !ok {
-			eng.Bump("no builder for the root object")
+			note("no builder for the root object", c.Witness())
 			continue
 		}
 		if bldrun.FindFunc(c.API, bldrun.GoName(rootB.Name)+"Converter") == "" {
@@ -327,6 +355,7 @@ func main() {
 		}
 	}
 	prep.Driver.Close()
+	lap("stage1")
 
 	// ---- stage 2: compile the expressions ----------------------------------------------------
 	byUnit := map[string][]*conv{}
@@ -362,7 +391,9 @@ func main() {
 		}
 		write(id+"/conv", pkgSource(id, exprs))
 	}
+	lap("written")
 	errs := ws.BuildGo()
+	lap("build-conv")
 	// bisect: units whose package fails get one package per expression
 	split := 0
 	for _, id := range unitOrder {
@@ -425,7 +456,9 @@ func main() {
 			pkgs = append(pkgs, dp)
 		}
 	}
+	lap("build-split")
 	drv, err := ws.BuildDriver(pkgs, map[string]string{"conv_hooks.go": convHooks})
+	lap("driver2")
 	if err != nil {
 		ws.Close()
 		vx.Fatalf("%v", err)
@@ -441,14 +474,6 @@ func main() {
 			c, u := cv.c, cv.u
 			rootB, _ := c.Go.Builder("Root")
 			rootTerm, _ := u.BuilderTerm(rootB)
-			classOf := func(field string) string {
-				for i, f := range rootTerm.Fields {
-					if f.Name == field {
-						return bldrun.TypeClass(u, rootTerm.Sub[i], 0)
-					}
-				}
-				return "?"
-			}
 			resp, died := drv.Do(map[string]any{"op": "runexpr", "unit": id, "k": fmt.Sprint(cv.k)})
 			trans++
 			switch {
@@ -486,17 +511,98 @@ func main() {
 				ks = append(ks, k)
 			}
 			sort.Strings(ks)
+			_, _ = dm, rm
+			_ = ks
 			ok := true
-			for _, k := range ks {
-				if bldrun.Canon(in[k]) == bldrun.Canon(dm[k]) {
-					continue // equals the builder's default: nothing is demanded
+			var cmp func(path string, v, rb, d any, t gschema.Term, known bool)
+			cmp = func(path string, v, rb, d any, t gschema.Term, known bool) {
+				if !ok {
+					return // one difference per value is enough
 				}
-				if bldrun.Canon(rm[k]) != bldrun.Canon(in[k]) {
-					ok = false
-					fail(cv, "rebuilt object differs", "expected "+bldrun.ValueClass(bldrun.Lenient(in[k]))+", found "+bldrun.ValueClass(bldrun.Lenient(rm[k])), classOf(k),
-						fmt.Sprintf("member %s: converter input %s, rebuilt %s (default %s); expression %q", k, bldrun.Text(in[k]), bldrun.Text(rm[k]), bldrun.Text(dm[k]), cv.expr))
+				lv := bldrun.Lenient(v)
+				if bldrun.IsEmpty(lv) {
+					return // no option can unset a member: nothing is demanded for what v does not hold
 				}
+				if bldrun.Canon(v) == bldrun.Canon(d) {
+					return // equals the builder's default
+				}
+				rt := t
+				if known {
+					rt = u.Resolve(t)
+					if rt.K == "disj" {
+						if i := u.PickBranch(rt, v); i >= 0 {
+							rt = u.Resolve(rt.Sub[i])
+						} else {
+							known = false
+						}
+					}
+				}
+				sub := func(k string) (gschema.Term, bool) {
+					if !known {
+						return gschema.Term{}, false
+					}
+					switch rt.K {
+					case "struct":
+						for i, f := range rt.Fields {
+							if f.Name == k {
+								return rt.Sub[i], true
+							}
+						}
+					case "map":
+						return rt.Sub[1], true
+					case "array":
+						return rt.Sub[0], true
+					}
+					return gschema.Term{}, false
+				}
+				if vm, isObj := v.(map[string]any); isObj {
+					if rb == nil {
+						rb = map[string]any{} // a member that is lost entirely is reported at the leaves it should hold
+					}
+					if rbm, isObj2 := rb.(map[string]any); isObj2 {
+						dmm, _ := d.(map[string]any)
+						var keys []string
+						for k := range vm {
+							keys = append(keys, k)
+						}
+						sort.Strings(keys)
+						for _, k := range keys {
+							st, sk := sub(k)
+							cmp(path+"."+k, vm[k], rbm[k], dmm[k], st, sk)
+						}
+						return
+					}
+				}
+				if va, isArr := v.([]any); isArr {
+					if ra, isArr2 := rb.([]any); isArr2 && len(ra) == len(va) {
+						for i := range va {
+							st, sk := sub("")
+							cmp(path+"[]", va[i], ra[i], nil, st, sk)
+						}
+						return
+					}
+				}
+				if bldrun.Canon(v) == bldrun.Canon(rb) {
+					return
+				}
+				ok = false
+				class := "?"
+				if known {
+					class = bldrun.TypeClass(u, t, 0)
+				}
+				what := "expected " + bldrun.ValueClass(lv) + ", found " + bldrun.ValueClass(bldrun.Lenient(rb))
+				if _, isArr := v.([]any); isArr {
+					if ra, isArr2 := rb.([]any); isArr2 {
+						what = "array length differs"
+						if len(ra) == len(v.([]any)) {
+							what = "array elements differ"
+						}
+					}
+				}
+				fail(cv, "rebuilt object differs", what, class,
+					fmt.Sprintf("at %s: converter input %s, rebuilt %s (default %s); whole input %s, rebuilt %s; expression %q", strings.TrimPrefix(path, "."), bldrun.Text(v), bldrun.Text(rb), bldrun.Text(d), bldrun.Text(cv.input), js, cv.expr))
 			}
+			cmp("", bldrun.Lenient(in), bldrun.Lenient(rebuilt), bldrun.Lenient(def), rootTerm, true)
 			// every option occurs exactly once per chain (append/index options: once per element)
 			chs, _ := chains(cv.expr)
 			for _, ch := range chs {
@@ -542,6 +648,7 @@ func main() {
 		}
 	}
 	drv.Close()
+	lap("stage3")
 
 	var cnt []string
 	for k, v := range eng.Counts {
